@@ -38,6 +38,9 @@
  *                    string, bogus curve, missing key file, missing CA file -- which leaves entries in
  *                    OpenSSL's per-thread error queue; for the session (and for the model) this is a no-op ->
  *        "est=<0|1> ver=<..> rvs=<ok|bad..> want=<ok|bad..> data=<ok|..> h=<c2s fnv>,<s2c fnv> eof=<..> close=<..>,<..> cut=<..> after=<ok|crossed(..)>"
+ *        pt=<nb>,<na>/<nb>,<na>: tls_peer_cert_notbefore/notafter as the client sees the server certificate / as the
+ *        server sees the client certificate, for certificates minted with an explicit window (validity field
+ *        w<notBefore>_<notAfter> in epoch seconds, may be negative; then now=<epoch> must be on the line for the model)
  *        after: an endpoint whose tls_handshake returned -1 keeps calling tls_write("ping!\n")/tls_read four more
  *        times before it gives up; `crossed` = one of those calls returned > 0, or the peer received application data
  *        (with C17_DEBUG set: " ## chs= shs= cutread= cerr= serr= steps= wants=" for humans; not compared)
@@ -531,6 +534,7 @@ static struct certent *get_cert(const char *desc)
 	X509_NAME *nm;
 	GENERAL_NAMES *gens = NULL;
 	static long serial = 1000;
+	long long win_nb = 0, win_na = 0;
 	BIO *b;
 	struct certent *ce;
 	char *cn = NULL;
@@ -544,7 +548,16 @@ static struct certent *get_cert(const char *desc)
 	if (nf != 5) goto fail;
 	if (strlen(f[0]) != 1 || f[0][0] < '0' || f[0][0] > '2') goto fail;
 	ca = f[0][0] - '0';
-	if (strlen(f[1]) != 1 || !strchr("vef", f[1][0])) goto fail;
+	if (f[1][0] == 'w') {
+		/* explicit validity window: w<notBefore>_<notAfter>, signed seconds since the epoch */
+		char *e1, *e2;
+		errno = 0;
+		win_nb = strtoll(f[1] + 1, &e1, 10);
+		if (e1 == f[1] + 1 || *e1 != '_' || errno) goto fail;
+		win_na = strtoll(e1 + 1, &e2, 10);
+		if (e2 == e1 + 1 || *e2 != 0 || errno) goto fail;
+		if (win_nb < -2000000000LL || win_nb > 253402300799LL || win_na < -2000000000LL || win_na > 253402300799LL) goto fail;
+	} else if (strlen(f[1]) != 1 || !strchr("vef", f[1][0])) goto fail;
 	if (strlen(f[2]) != 1 || !strchr("sc", f[2][0])) goto fail;
 	if (!parse_str(f[3], &cn)) goto fail;
 
@@ -553,7 +566,12 @@ static struct certent *get_cert(const char *desc)
 	if (!key || !x) goto fail;
 	X509_set_version(x, 2);
 	ASN1_INTEGER_set(X509_get_serialNumber(x), serial++);
-	if (f[1][0] == 'v') { X509_gmtime_adj(X509_getm_notBefore(x), -86400L * 30); X509_gmtime_adj(X509_getm_notAfter(x), 86400L * 365); }
+	if (f[1][0] == 'w') {
+		/* UTCTime for 1950..2049, GeneralizedTime outside (RFC 5280), chosen by ASN1_TIME_set */
+		if (!ASN1_TIME_set(X509_getm_notBefore(x), (time_t)win_nb)) goto fail;
+		if (!ASN1_TIME_set(X509_getm_notAfter(x), (time_t)win_na)) goto fail;
+	}
+	else if (f[1][0] == 'v') { X509_gmtime_adj(X509_getm_notBefore(x), -86400L * 30); X509_gmtime_adj(X509_getm_notAfter(x), 86400L * 365); }
 	else if (f[1][0] == 'e') { X509_gmtime_adj(X509_getm_notBefore(x), -86400L * 60); X509_gmtime_adj(X509_getm_notAfter(x), -86400L * 30); }
 	else { X509_gmtime_adj(X509_getm_notBefore(x), 86400L * 30); X509_gmtime_adj(X509_getm_notAfter(x), 86400L * 60); }
 	X509_set_pubkey(x, key);
@@ -1042,6 +1060,7 @@ static void do_hs(char **w, int n)
 	struct hs_par P;
 	struct ep C, S;
 	struct tls_config *cfgA_c = NULL, *cfgA_s = NULL;
+	int swin = 0, cwin = 0;
 	const char *v;
 	long lv;
 	int sp[2] = { -1, -1 };
@@ -1090,6 +1109,13 @@ static void do_hs(char **w, int n)
 	if (!kv_get(w + 1, n - 1, "perm", &v)) goto bad;	/* model input only */
 	if (!kv_get(w + 1, n - 1, "pton", &v) || (strcmp(v, "g") && strcmp(v, "c"))) goto bad;	/* model input only */
 	g_cutread = -99;
+	{
+		/* certificates with explicit windows need the model's idea of "now" on the line (model input only) */
+		int sw = strchr(P.scert, ':') && strchr(P.scert, ':')[1] == 'w';
+		int cw = strcmp(P.ccert, "none") != 0 && strchr(P.ccert, ':') && strchr(P.ccert, ':')[1] == 'w';
+		if ((sw || cw) && !kv_get(w + 1, n - 1, "now", &v)) goto bad;
+		swin = sw; cwin = cw;
+	}
 	if (!(sce = get_cert(P.scert))) goto bad;
 	if (strcmp(P.ccert, "none") != 0 && !(cce = get_cert(P.ccert))) goto bad;
 
@@ -1142,7 +1168,7 @@ static void do_hs(char **w, int n)
 	stage = "connect";
 	if (tls_connect_fds(C.ctx, C.fd, C.fd, host) != 0) {
 		/* a policy outcome (verify_name on without a server name) rather than a harness fault */
-		printf("est=0 ver=- rvs=ok want=ok data=- h=-,- eof=- close=-,- cut=- after=ok");
+		printf("est=0 ver=- rvs=ok want=ok data=- h=-,- eof=- close=-,- cut=- pt=- after=ok");
 		if (g_debug) printf(" ## chs=connect-fail cerr=%s", err_class(tls_error(C.ctx)));
 		printf("\n");
 		goto cleanup;
@@ -1238,6 +1264,14 @@ static void do_hs(char **w, int n)
 	} else {
 		printf(" data=- h=-,- eof=- close=-,- cut=-");
 	}
+	/* the validity dates the library reports for the peer certificate (exact, also before 1970) */
+	if (est) {
+		printf(" pt=");
+		if (swin) printf("%lld,%lld", (long long)tls_peer_cert_notbefore(C.ctx), (long long)tls_peer_cert_notafter(C.ctx));
+		else printf("-");
+		if (cwin && P.svc != 0) printf("/%lld,%lld", (long long)tls_peer_cert_notbefore(S.ctx), (long long)tls_peer_cert_notafter(S.ctx));
+		else printf("/-");
+	} else printf(" pt=-");
 	printf(" after=%s", (C.crossed || S.crossed) ? (C.crossed ? "crossed(client)" : "crossed(server)") : "ok");
 	st_sessions++; st_est += est; st_steps += steps; st_wants += C.nwants + S.nwants;
 	st_calls += C.ncalls + S.ncalls; st_bytes += C.nin + S.nin;
